@@ -1,4 +1,5 @@
 import Brax.Lemmas.C10
+import Brax.Lemmas.C10Mjx
 import Brax.Props.C09
 import Mathlib.Tactic.Ring
 import Mathlib.Tactic.Linarith
@@ -793,5 +794,290 @@ example : (⟨0, 0, 0⟩ : V3 ℝ) - V3.smul 1 ⟨1, 0, 0⟩ ≠ ⟨0, 0, 0⟩ +
   intro h; have := congrArg V3.x h; norm_num [V3.smul] at this
 
 end examples
+
+end Brax.C10
+
+/-! ## Part 3 — the transcription `Mjx.*` of the external collider returns the closed forms
+
+(deepening; proofs of the ingredients in `Brax/Lemmas/C10Mjx.lean`).  `Mjx.pairRows t₁ s₁ w₁ t₂ s₂ w₂`
+is the hand transcription of `mujoco.mjx._src.collision_primitive.{plane_sphere, plane_capsule,
+sphere_sphere, sphere_capsule, capsule_capsule}` (`w = (geom_xpos, geom_xmat)`, `s = geom_size`); it is
+tied to the real functions by the generated `Brax/Gen/Mjx.lean` + the `mjx_translator_tie_*` theorems
+below (four of the five kinds) and by leg A of the correspondence check.  `candRow k = (k.dist, k.pos, k.n)`.
+
+* no regulariser: `mjx_plane_sphere_closed_form` (unit plane normal, which `contact.get` always hands
+  over: `geomWorld_col2_unit`), `mjx_plane_capsule_closed_form` (all inputs);
+* guard of `math.norm` (`Small d`: all `|dᵢ| ≤ 1e-8`): `mjx_sphere_sphere_closed_form` (outside the guard or
+  exactly coincident), `mjx_sphere_sphere_dist_within` (always within `2e-8`, from below);
+* `+1e-6` of `closest_segment_point`: `mjx_sphere_capsule_closed_form_at_ends` (equality when the nearest
+  point is an end-cap centre), `mjx_sphere_capsule_dist_bounds` (never below the closed form; second-order
+  and first-order upper bounds);
+* `closest_segment_to_segment_points`: `mjx_capsule_capsule_dist_ge` (never below the closed form; no
+  upper bound proved).
+-/
+namespace Brax.C10
+open Brax Spec
+
+/-- the plane normal / capsule axis `contact.get` hands to the collider (third column of `geom_xmat`)
+is a unit vector whenever link and geom quaternions are unit -/
+theorem geomWorld_col2_unit (x : List (Tf ℝ)) (g : Geom ℝ) (hx : (geomLink x g).rot.IsUnit)
+    (hg : g.quat.IsUnit) : V3.dot (geomWorld x g).2.col2 (geomWorld x g).2.col2 = 1 := by
+  rw [geom_world_axis x g hx hg, rotate_dot_unit _ _ hx, rotate_dot_unit _ _ hg]
+  norm_num [V3.dot]
+
+/-- **plane – sphere**: the transcription returns exactly the closed-form candidate (unit normal) -/
+theorem mjx_plane_sphere_closed_form (s1 s2 : V3 ℝ) (w1 w2 : V3 ℝ × M3 ℝ)
+    (hn : V3.dot w1.2.col2 w1.2.col2 = 1) :
+    Mjx.pairRows 0 s1 w1 2 s2 w2 = some ((collide (.plane w1.1 w1.2.col2) (.sphere w2.1 s2.x)).map candRow) :=
+  mjx_plane_sphere_rows s1 s2 w1 w2 hn
+
+/-- **plane – capsule**: both rows are exactly the closed-form candidates, for all inputs -/
+theorem mjx_plane_capsule_closed_form (s1 s2 : V3 ℝ) (w1 w2 : V3 ℝ × M3 ℝ) :
+    Mjx.pairRows 0 s1 w1 3 s2 w2
+      = some ((collide (.plane w1.1 w1.2.col2) (.capsule w2.1 w2.2.col2 s2.y s2.x)).map candRow) :=
+  mjx_plane_capsule_rows s1 s2 w1 w2
+
+/-- **sphere – sphere**: exactly the closed-form candidate when the centre difference is outside the
+guard of `math.norm` (some `|Δᵢ| > 1e-8`) or the centres coincide exactly -/
+theorem mjx_sphere_sphere_closed_form (s1 s2 : V3 ℝ) (w1 w2 : V3 ℝ × M3 ℝ)
+    (h : ¬ Small (w2.1 - w1.1) ∨ w2.1 = w1.1) :
+    Mjx.pairRows 2 s1 w1 2 s2 w2 = some ((collide (.sphere w1.1 s1.x) (.sphere w2.1 s2.x)).map candRow) := by
+  rcases h with h | h
+  · exact mjx_sphere_sphere_rows s1 s2 w1 w2 h
+  · exact mjx_sphere_sphere_rows_coincident s1 s2 w1 w2 h
+
+/-- sphere – sphere, all inputs: the reported distance is never above the closed form and at most
+`2e-8` below it; inside the guard (non-coincident centres nearer than `1e-8` per axis) the reported
+normal is `e_x` whatever the true direction -/
+theorem mjx_sphere_sphere_dist_within (p1 : V3 ℝ) (r1 : ℝ) (p2 : V3 ℝ) (r2 : ℝ) :
+    (Mjx.sphereSphere' p1 r1 p2 r2).1 ≤ (sphereSphere p1 r1 p2 r2).dist
+    ∧ (sphereSphere p1 r1 p2 r2).dist ≤ (Mjx.sphereSphere' p1 r1 p2 r2).1 + 2e-8
+    ∧ (Small (p2 - p1) → (Mjx.sphereSphere' p1 r1 p2 r2).2.2 = ⟨1, 0, 0⟩) :=
+  ⟨(mjx_sphereSphere'_dist_err p1 r1 p2 r2).1, (mjx_sphereSphere'_dist_err p1 r1 p2 r2).2,
+    fun h => (mjx_sphereSphere'_small_err p1 r1 p2 r2 h).2.2.2⟩
+
+/-- **sphere – capsule**: exactly the closed-form candidate when the sphere centre projects outside
+the open axis segment (the nearest point is an end-cap centre; at the far end by the margin `1e-6` of
+the regulariser) and is not within the guard of that point -/
+theorem mjx_sphere_capsule_closed_form_at_ends (s1 s2 : V3 ℝ) (w1 w2 : V3 ℝ × M3 ℝ)
+    (hab : w2.1 - V3.smul s2.y w2.2.col2 ≠ w2.1 + V3.smul s2.y w2.2.col2)
+    (hend : V3.dot (w1.1 - (w2.1 - V3.smul s2.y w2.2.col2))
+              ((w2.1 + V3.smul s2.y w2.2.col2) - (w2.1 - V3.smul s2.y w2.2.col2)) ≤ 0
+          ∨ V3.dot ((w2.1 + V3.smul s2.y w2.2.col2) - (w2.1 - V3.smul s2.y w2.2.col2))
+                ((w2.1 + V3.smul s2.y w2.2.col2) - (w2.1 - V3.smul s2.y w2.2.col2)) + 1e-6
+              ≤ V3.dot (w1.1 - (w2.1 - V3.smul s2.y w2.2.col2))
+                  ((w2.1 + V3.smul s2.y w2.2.col2) - (w2.1 - V3.smul s2.y w2.2.col2)))
+    (h : ¬ Small (closestOnSeg (w2.1 - V3.smul s2.y w2.2.col2) (w2.1 + V3.smul s2.y w2.2.col2) w1.1
+            - w1.1)) :
+    Mjx.pairRows 2 s1 w1 3 s2 w2
+      = some ((collide (.sphere w1.1 s1.x) (.capsule w2.1 w2.2.col2 s2.y s2.x)).map candRow) :=
+  mjx_sphere_capsule_rows_eq s1 s2 w1 w2 hab hend h
+
+/-- sphere – capsule in general: the row is the exact sphere–sphere candidate against the ball at the
+point `P` returned by `closest_segment_point` (`mjx_sphere_capsule_rows`); its distance `d_mjx` against
+the closed form `d`:  `d ≤ d_mjx`,  `(d_mjx − d)·(d_mjx + d + 2(r + r_c)) ≤ 3e-12 / (|ab|² + 1e-6)`
+(second order: `|ab| = 2h = 0.1`, centre distance `≈ 0.1` gives `≤ 1.5e-9`) and
+`d_mjx − d ≤ 1e-6·|ab| / (|ab|² + 1e-6)` (first order, useful when the centre is on the axis) -/
+theorem mjx_sphere_capsule_dist_bounds (c : V3 ℝ) (r : ℝ) (cc ca : V3 ℝ) (ch cr : ℝ)
+    (hab : cc - V3.smul ch ca ≠ cc + V3.smul ch ca) :
+    let a := cc - V3.smul ch ca
+    let b := cc + V3.smul ch ca
+    let dm := (sphereSphere c r (Mjx.closestSegmentPoint a b c) cr).dist
+    let d := (sphereCapsule c r cc ca ch cr).dist
+    d ≤ dm
+    ∧ (dm - d) * (dm + d + 2 * (r + cr)) ≤ 3e-12 / (V3.dot (b - a) (b - a) + 1e-6)
+    ∧ dm - d ≤ 1e-6 / (V3.dot (b - a) (b - a) + 1e-6) * norm3 (b - a) := by
+  intro a b dm d
+  obtain ⟨h1, h2⟩ := mjx_closestSegmentPoint_dist_err a b c hab
+  have h3 := mjx_closestSegmentPoint_err a b c hab
+  have ht := norm3_sub_le c (closestOnSeg a b c) (Mjx.closestSegmentPoint a b c)
+  have edm : dm = norm3 (c - Mjx.closestSegmentPoint a b c) - r - cr := by
+    simp only [dm, sphereSphere]; rw [norm3_sub_comm]
+  have ed : d = norm3 (c - closestOnSeg a b c) - r - cr := by
+    simp only [d, sphereCapsule, sphereSphere]; rw [norm3_sub_comm]
+  rw [edm, ed]
+  refine ⟨by linarith, ?_, by linarith⟩
+  have e : (norm3 (c - Mjx.closestSegmentPoint a b c) - r - cr - (norm3 (c - closestOnSeg a b c) - r - cr))
+      * (norm3 (c - Mjx.closestSegmentPoint a b c) - r - cr + (norm3 (c - closestOnSeg a b c) - r - cr)
+          + 2 * (r + cr))
+      = (norm3 (c - Mjx.closestSegmentPoint a b c) - norm3 (c - closestOnSeg a b c))
+        * (norm3 (c - Mjx.closestSegmentPoint a b c) + norm3 (c - closestOnSeg a b c)) := by ring
+  rw [e]; exact h2
+
+/-- **capsule – capsule**: the two points returned by `closest_segment_to_segment_points` lie on the two
+axis segments (all inputs), hence the sphere–sphere distance of the balls centred there — which is what
+the row reports (`mjx_capsule_capsule_rows`) — is **never below the closed-form distance** -/
+theorem mjx_capsule_capsule_dist_ge (c1 a1 : V3 ℝ) (h1 r1 : ℝ) (c2 a2 : V3 ℝ) (h2 r2 : ℝ)
+    (hs1 : c1 - V3.smul h1 a1 ≠ c1 + V3.smul h1 a1) (hs2 : c2 - V3.smul h2 a2 ≠ c2 + V3.smul h2 a2) :
+    let pq := Mjx.closestSegmentToSegmentPoints (c1 - V3.smul h1 a1) (c1 + V3.smul h1 a1)
+      (c2 - V3.smul h2 a2) (c2 + V3.smul h2 a2)
+    (capsuleCapsule c1 a1 h1 r1 c2 a2 h2 r2).dist ≤ (sphereSphere pq.1 r1 pq.2 r2).dist := by
+  intro pq
+  obtain ⟨⟨s, hs0, hs1', hs⟩, ⟨t, ht0, ht1, ht⟩⟩ := mjx_segseg_onSeg (c1 - V3.smul h1 a1)
+    (c1 + V3.smul h1 a1) (c2 - V3.smul h2 a2) (c2 + V3.smul h2 a2)
+  have := segSegClosest_optimal _ _ _ _ hs1 hs2 s t hs0 hs1' ht0 ht1
+  rw [← hs, ← ht] at this
+  simp only [capsuleCapsule, sphereSphere]
+  rw [norm3_sub_comm _ (segSegClosest _ _ _ _).1, norm3_sub_comm pq.2 pq.1]
+  linarith
+
+/-! ### translator tie: `Mjx.pairRows` = the definitions generated from the real `mujoco.mjx` functions -/
+
+/-- the transcription of `plane_sphere` is the function traced from the installed library -/
+theorem mjx_translator_tie_plane_sphere (s1 p1 : V3 ℝ) (m1 : M3 ℝ) (s2 p2 : V3 ℝ) (m2 : M3 ℝ) :
+    Mjx.pairRows 0 s1 (p1, m1) 2 s2 (p2, m2) = some (Gen.Mjx.planeSphere s1 p1 m1 s2 p2 m2) :=
+  bridge_planeSphere s1 p1 m1 s2 p2 m2
+
+theorem mjx_translator_tie_plane_capsule (s1 p1 : V3 ℝ) (m1 : M3 ℝ) (s2 p2 : V3 ℝ) (m2 : M3 ℝ) :
+    Mjx.pairRows 0 s1 (p1, m1) 3 s2 (p2, m2) = some (Gen.Mjx.planeCapsule s1 p1 m1 s2 p2 m2) :=
+  bridge_planeCapsule s1 p1 m1 s2 p2 m2
+
+theorem mjx_translator_tie_sphere_sphere (s1 p1 : V3 ℝ) (m1 : M3 ℝ) (s2 p2 : V3 ℝ) (m2 : M3 ℝ) :
+    Mjx.pairRows 2 s1 (p1, m1) 2 s2 (p2, m2) = some (Gen.Mjx.sphereSphere s1 p1 m1 s2 p2 m2) :=
+  bridge_sphereSphere s1 p1 m1 s2 p2 m2
+
+theorem mjx_translator_tie_sphere_capsule (s1 p1 : V3 ℝ) (m1 : M3 ℝ) (s2 p2 : V3 ℝ) (m2 : M3 ℝ) :
+    Mjx.pairRows 2 s1 (p1, m1) 3 s2 (p2, m2) = some (Gen.Mjx.sphereCapsule s1 p1 m1 s2 p2 m2) :=
+  bridge_sphereCapsule s1 p1 m1 s2 p2 m2
+
+/-- so the *real* traced functions return the closed forms: e.g. `plane_capsule`, all inputs -/
+theorem real_plane_capsule_closed_form (s1 p1 : V3 ℝ) (m1 : M3 ℝ) (s2 p2 : V3 ℝ) (m2 : M3 ℝ) :
+    Gen.Mjx.planeCapsule s1 p1 m1 s2 p2 m2
+      = (planeCapsule p1 m1.col2 p2 m2.col2 s2.y s2.x).map candRow := by
+  have h := mjx_plane_capsule_rows s1 s2 (p1, m1) (p2, m2)
+  rw [bridge_planeCapsule] at h
+  exact Option.some.inj h
+
+/-- … `sphere_sphere` outside the guard -/
+theorem real_sphere_sphere_closed_form (s1 p1 : V3 ℝ) (m1 : M3 ℝ) (s2 p2 : V3 ℝ) (m2 : M3 ℝ)
+    (h : ¬ Small (p2 - p1)) :
+    Gen.Mjx.sphereSphere s1 p1 m1 s2 p2 m2 = [candRow (sphereSphere p1 s1.x p2 s2.x)] := by
+  have h' := mjx_sphere_sphere_rows s1 s2 (p1, m1) (p2, m2) h
+  rw [bridge_sphereSphere] at h'
+  exact Option.some.inj h'
+
+/-- … `plane_sphere` for a unit plane normal -/
+theorem real_plane_sphere_closed_form (s1 p1 : V3 ℝ) (m1 : M3 ℝ) (s2 p2 : V3 ℝ) (m2 : M3 ℝ)
+    (hn : V3.dot m1.col2 m1.col2 = 1) :
+    Gen.Mjx.planeSphere s1 p1 m1 s2 p2 m2 = [candRow (planeSphere p1 m1.col2 p2 s2.x)] := by
+  have h' := mjx_plane_sphere_rows s1 s2 (p1, m1) (p2, m2) hn
+  rw [bridge_planeSphere] at h'
+  exact Option.some.inj h'
+
+/-! ### `hcol` of `get_reports_spec` discharged for the exact kinds -/
+
+/-- the pair is of a kind (and in a configuration) for which the transcription is exactly the closed form -/
+def ExactPair (x : List (Tf ℝ)) (g1 g2 : Geom ℝ) : Prop :=
+  (g1.typ = 0 ∧ g2.typ = 2) ∨ (g1.typ = 0 ∧ g2.typ = 3)
+  ∨ (g1.typ = 2 ∧ g2.typ = 2
+      ∧ (¬ Small ((geomWorld x g2).1 - (geomWorld x g1).1) ∨ (geomWorld x g2).1 = (geomWorld x g1).1))
+
+/-- rows of one pair: whatever `pairRows` returns as closed-form candidates satisfies `RowIsSpec` -/
+theorem rowIsSpec_of_pairRows (sc : Scene ℝ) (x : List (Tf ℝ)) (i j : Nat) (hi : i < sc.geoms.length)
+    (hj : j < sc.geoms.length) (sh1 sh2 : Shape ℝ)
+    (e1 : toShape sc.geoms[i].typ sc.geoms[i].size (geomWorld x sc.geoms[i]).1 (geomWorld x sc.geoms[i]).2
+        = some sh1)
+    (e2 : toShape sc.geoms[j].typ sc.geoms[j].size (geomWorld x sc.geoms[j]).1 (geomWorld x sc.geoms[j]).2
+        = some sh2)
+    (r : MjxRow ℝ)
+    (hr : r ∈ ((collide sh1 sh2).map candRow).map fun q => (⟨i, j, q.1, q.2.1, q.2.2⟩ : MjxRow ℝ)) :
+    RowIsSpec sc x r := by
+  simp only [List.map_map, List.mem_map, Function.comp] at hr
+  obtain ⟨k, hk, rfl⟩ := hr
+  exact ⟨hi, hj, sh1, sh2, k, e1, e2, hk, rfl, rfl, rfl⟩
+
+/-- **`mjx.collision` (transcription) returns closed-form rows**: for a scene with unit geom and link
+quaternions, every row produced for pairs of the exact kinds (plane–sphere, plane–capsule,
+sphere–sphere outside the guard) satisfies `RowIsSpec` — the hypothesis `hcol` of `get_reports_spec` -/
+theorem mjx_collision_rowIsSpec (sc : Scene ℝ) (x : List (Tf ℝ)) (pairs : List (Nat × Nat))
+    (hunit : ∀ g ∈ sc.geoms, g.quat.IsUnit ∧ (geomLink x g).rot.IsUnit)
+    (hpairs : ∀ p ∈ pairs, ∀ (h1 : p.1 < sc.geoms.length) (h2 : p.2 < sc.geoms.length),
+        ExactPair x sc.geoms[p.1] sc.geoms[p.2]) :
+    ∀ r ∈ Mjx.collision sc.geoms pairs (sc.geoms.map (geomWorld x)), RowIsSpec sc x r := by
+  intro r hr
+  simp only [Mjx.collision, List.mem_flatMap] at hr
+  obtain ⟨p, hp, hr⟩ := hr
+  by_cases h1 : p.1 < sc.geoms.length
+  swap
+  · simp [List.getElem?_eq_none (not_lt.mp h1)] at hr
+  by_cases h2 : p.2 < sc.geoms.length
+  swap
+  · simp [List.getElem?_eq_none (not_lt.mp h2)] at hr
+  have hm1 : (sc.geoms.map (geomWorld x))[p.1]? = some (geomWorld x sc.geoms[p.1]) := by
+    simp [List.getElem?_map, List.getElem?_eq_getElem h1]
+  have hm2 : (sc.geoms.map (geomWorld x))[p.2]? = some (geomWorld x sc.geoms[p.2]) := by
+    simp [List.getElem?_map, List.getElem?_eq_getElem h2]
+  rw [List.getElem?_eq_getElem h1, List.getElem?_eq_getElem h2, hm1, hm2] at hr
+  simp only at hr
+  obtain ⟨hq1, hx1⟩ := hunit _ (List.getElem_mem h1)
+  rcases hpairs p hp h1 h2 with ⟨t1, t2⟩ | ⟨t1, t2⟩ | ⟨t1, t2, hc⟩
+  · rw [t1, t2, mjx_plane_sphere_closed_form _ _ _ _ (geomWorld_col2_unit x _ hx1 hq1)] at hr
+    exact rowIsSpec_of_pairRows sc x p.1 p.2 h1 h2 _ _ (by rw [t1]; rfl) (by rw [t2]; rfl) r hr
+  · rw [t1, t2, mjx_plane_capsule_closed_form] at hr
+    exact rowIsSpec_of_pairRows sc x p.1 p.2 h1 h2 _ _ (by rw [t1]; rfl) (by rw [t2]; rfl) r hr
+  · rw [t1, t2, mjx_sphere_sphere_closed_form _ _ _ _ hc] at hr
+    exact rowIsSpec_of_pairRows sc x p.1 p.2 h1 h2 _ _ (by rw [t1]; rfl) (by rw [t2]; rfl) r hr
+
+/-- **end-to-end for the exact kinds** (no hypothesis about the collider left): with the transcription of
+`mjx.collision` as the collider, every contact `contact.get` reports carries the closed-form
+distance / point / normal of its pair on the link-composed shapes, the owner links and the mean elasticity -/
+theorem get_reports_spec_mjx (sc : Scene ℝ) (x : List (Tf ℝ)) (pairs : List (Nat × Nat))
+    (cs : List (Contact ℝ)) (hget : get sc x (Mjx.collision sc.geoms pairs) = some cs)
+    (hunit : ∀ g ∈ sc.geoms, g.quat.IsUnit ∧ (geomLink x g).rot.IsUnit)
+    (hpairs : ∀ p ∈ pairs, ∀ (h1 : p.1 < sc.geoms.length) (h2 : p.2 < sc.geoms.length),
+        ExactPair x sc.geoms[p.1] sc.geoms[p.2])
+    (hel : sc.elasticity.length = sc.geoms.length) :
+    ∀ c ∈ cs, ∃ (h1 : c.row.geom1 < sc.geoms.length) (h2 : c.row.geom2 < sc.geoms.length),
+      RowIsSpec sc x c.row
+      ∧ c.link1 = (sc.geoms[c.row.geom1].bodyid : Int) - 1
+      ∧ c.link2 = (sc.geoms[c.row.geom2].bodyid : Int) - 1
+      ∧ c.elasticity = (sc.elasticity[c.row.geom1]'(hel ▸ h1) + sc.elasticity[c.row.geom2]'(hel ▸ h2)) / 2 :=
+  get_reports_spec sc x _ cs hget (mjx_collision_rowIsSpec sc x pairs hunit hpairs) hel
+
+/-! ### non-vacuity of the side conditions -/
+
+/-- centres 5 apart are outside the guard -/
+example : ¬ Small ((⟨3, 4, 0⟩ : V3 ℝ) - ⟨0, 0, 0⟩) := by
+  apply not_small_of_dot; norm_num [V3.dot]
+
+/-- the guard regime is inhabited by non-coincident centres: `Δ = (1e-9, 0, 0)` -/
+example : Small ((⟨1e-9, 0, 0⟩ : V3 ℝ) - ⟨0, 0, 0⟩) ∧ (⟨1e-9, 0, 0⟩ : V3 ℝ) ≠ ⟨0, 0, 0⟩ := by
+  constructor
+  · rw [small_iff]; norm_num [abs_of_nonneg]
+  · intro h; have := congrArg V3.x h; norm_num at this
+
+/-- a unit plane normal (identity `geom_xmat`) -/
+example : V3.dot (⟨⟨1, 0, 0⟩, ⟨0, 1, 0⟩, ⟨0, 0, 1⟩⟩ : M3 ℝ).col2
+    (⟨⟨1, 0, 0⟩, ⟨0, 1, 0⟩, ⟨0, 0, 1⟩⟩ : M3 ℝ).col2 = 1 := by
+  norm_num [M3.col2, V3.dot]
+
+/-- a sphere beyond the end of a capsule axis (`hend`, first alternative): capsule along `x`,
+half-length 1, sphere centre at `x = −2` -/
+example : V3.dot ((⟨-2, 0, 1⟩ : V3 ℝ) - (⟨0, 0, 0⟩ - V3.smul 1 ⟨1, 0, 0⟩))
+    ((⟨0, 0, 0⟩ + V3.smul 1 ⟨1, 0, 0⟩) - (⟨0, 0, 0⟩ - V3.smul 1 ⟨1, 0, 0⟩)) ≤ 0 := by
+  norm_num [V3.dot, V3.smul]
+
+/-- the hypotheses of `get_reports_spec_mjx` are met by the plane + sphere scene `scEx` at the pose `xEx`
+with the candidate pair `(0, 1)`, and `get` returns a contact -/
+example : (∀ g ∈ scEx.geoms, g.quat.IsUnit ∧ (geomLink xEx g).rot.IsUnit)
+    ∧ (∀ p ∈ [((0 : Nat), (1 : Nat))], ∀ (h1 : p.1 < scEx.geoms.length) (h2 : p.2 < scEx.geoms.length),
+        ExactPair xEx scEx.geoms[p.1] scEx.geoms[p.2])
+    ∧ scEx.elasticity.length = scEx.geoms.length
+    ∧ ∃ cs, get scEx xEx (Mjx.collision scEx.geoms [(0, 1)]) = some cs := by
+  refine ⟨?_, ?_, rfl, ?_⟩
+  · intro g hg
+    simp only [scEx, List.mem_cons, List.mem_nil_iff, or_false] at hg
+    rcases hg with rfl | rfl
+    · refine ⟨by norm_num [Q4.IsUnit, Q4.normSq], ?_⟩
+      rw [geomLink_world _ _ rfl]; norm_num [Tf.id, Q4.one, Q4.IsUnit, Q4.normSq]
+    · refine ⟨by norm_num [Q4.IsUnit, Q4.normSq], ?_⟩
+      rw [geomLink_link xEx _ (b := 0) rfl (by simp [xEx])]
+      norm_num [xEx, gEx, Q4.IsUnit, Q4.normSq]
+  · intro p hp h1 h2
+    simp only [List.mem_singleton] at hp
+    subst hp
+    left
+    simp [scEx]
+  · simp [get, Mjx.collision, scEx, Mjx.pairRows]
 
 end Brax.C10
